@@ -29,10 +29,13 @@ EXTENDS Integers, Sequences, FiniteSets, TLC
 CONSTANTS Adders,       \* tasks that call Add
           Rotators,     \* tasks that call rotate1 (first open or weekly rotation)
           CtrOf,        \* Adders -> counter name
-          NAdds,        \* Adders -> number of sequential Add(1) calls
+          NAdds,        \* Adders -> number of sequential Add calls
+          Amt,          \* Adders -> the amount of each of its Add calls (>= MaxExtra: an amount that alone saturates the pending value)
           NRot,         \* Rotators -> number of sequential rotate1 calls (the clock moves on one span between two calls)
           Counters,
-          Warm,         \* counters that were incremented once before the race starts (file open)
+          Warm,         \* counters that were incremented once before the race starts: persisted if the file is open
+                        \* (InitOpen), otherwise registered with the amount still in memory (pending)
+          WarmSeq,      \* the same as a sequence: the order in which they were incremented (= registered)
           InitOpen,     \* TRUE: the file of span 1 is open (mapping 1) at the start
           ClockSpan,    \* the span the clock is in at the start (2 = rotation pending)
           Capacity,     \* free record slots of mapping 1
@@ -98,15 +101,16 @@ TypeOK == /\ \A c \in Counters : st[c] \in 0..(WMOD - 1) /\ ptr[c] \in 0..MaxMap
           /\ cur \in 0..MaxMaps /\ open \subseteq 1..MaxMaps /\ nmaps \in 0..MaxMaps
 
 (* ------------------------------------------------------------------ Init *)
-WarmList == CHOOSE s \in [1..Cardinality(Warm) -> Warm] : \A i, j \in 1..Cardinality(Warm) : i # j => s[i] # s[j]
+WarmList == WarmSeq
+ASSUME {WarmSeq[i] : i \in DOMAIN WarmSeq} = Warm /\ Len(WarmSeq) = Cardinality(Warm)
 WarmNext(c) == LET i == CHOOSE k \in 1..Cardinality(Warm) : WarmList[k] = c
                IN IF i = 1 THEN "end" ELSE WarmList[i - 1]
 WarmHead == IF Warm = {} THEN "nil" ELSE WarmList[Cardinality(Warm)]
 
-St0 == [c \in Counters |-> IF InitOpen /\ c \in Warm THEN Mk(0, 1, 0) ELSE 0]
+St0 == [c \in Counters |-> IF c \in Warm THEN (IF InitOpen THEN Mk(0, 1, 0) ELSE Mk(0, 1, 1)) ELSE 0]   \* pending: havePtr is set although the pointer is nil (no file), the amount is in memory
 Ptr0 == [c \in Counters |-> IF InitOpen /\ c \in Warm THEN 1 ELSE 0]
-Nxt0 == [c \in Counters |-> IF InitOpen /\ c \in Warm THEN WarmNext(c) ELSE "nil"]
-Head0 == IF InitOpen THEN WarmHead ELSE "nil"
+Nxt0 == [c \in Counters |-> IF c \in Warm THEN WarmNext(c) ELSE "nil"]
+Head0 == WarmHead
 Cur0 == IF InitOpen THEN 1 ELSE 0
 Open0 == IF InitOpen THEN {1} ELSE {}
 Mfile0 == [m \in 1..MaxMaps |-> IF m = 1 /\ InitOpen THEN 1 ELSE 0]
@@ -118,7 +122,7 @@ Cell0 == [f \in Files |-> [c \in Counters |-> IF f = 1 /\ InitOpen /\ c \in Warm
 Fspan0 == IF InitOpen THEN 1 ELSE 0
 Stk0 == [t \in Tasks |-> <<[Frame("T_start", IF t \in Adders THEN CtrOf[t] ELSE NoC) EXCEPT !.left = IF t \in Adders THEN NAdds[t] ELSE NRot[t] - 1]>>]
 Rv0 == [t \in Tasks |-> 0]
-Begun0 == [c \in Counters |-> IF InitOpen /\ c \in Warm THEN WarmCell ELSE 0]
+Begun0 == [c \in Counters |-> IF c \in Warm THEN (IF InitOpen THEN WarmCell ELSE 1) ELSE 0]
 ClosedBy0 == [m \in 1..MaxMaps |-> "none"]
 
 Init ==
@@ -141,7 +145,7 @@ Close(m, t) == /\ open' = open \ {m}
 TStart(t) ==
   /\ Top(t).pc = "T_start"
   /\ IF t \in Adders
-     THEN /\ begun' = [begun EXCEPT ![Top(t).c] = @ + 1]
+     THEN /\ begun' = [begun EXCEPT ![Top(t).c] = @ + Amt[t]]
           /\ stk' = SetTop(t, [Top(t) EXCEPT !.pc = "RG_nl", !.left = @ - 1, !.w = FALSE])
      ELSE /\ stk' = Goto(t, "RO_lock") /\ U(begun)
   /\ U(<<shared, rv, faults, closedBy>>)
@@ -191,14 +195,14 @@ Acas1(t) == LET f == Top(t) IN           \* update(incReader): become a reader
           /\ IF ptr[f.c] = 0
              THEN stk' = SetTop(t, [f EXCEPT !.s = IncReader(f.s), !.pc = "A_nilx"])
              ELSE stk' = CallFrom(t, [f EXCEPT !.s = IncReader(f.s), !.pc = "A_relR"],
-                                  [Frame("D_load", f.c) EXCEPT !.m = ptr[f.c], !.n = 1])
+                                  [Frame("D_load", f.c) EXCEPT !.m = ptr[f.c], !.n = Amt[t]])
      ELSE /\ U(st) /\ stk' = Goto(t, "A_load")
   /\ U(<<ptr, nxt, head, cur, open, mfile, mcap, nmaps, used, recs, cell, mu, fspan, clock, rv, begun, faults, closedBy>>)
 Anilx(t) == LET f == Top(t) IN           \* reader without a pointer: update(addExtra) loop
   /\ f.pc = "A_nilx"
   /\ IF st[f.c] = f.s
-     THEN /\ st' = [st EXCEPT ![f.c] = AddEX(f.s, 1)]
-          /\ stk' = SetTop(t, [f EXCEPT !.s = AddEX(f.s, 1), !.pc = "RR_top"])
+     THEN /\ st' = [st EXCEPT ![f.c] = AddEX(f.s, Amt[t])]
+          /\ stk' = SetTop(t, [f EXCEPT !.s = AddEX(f.s, Amt[t]), !.pc = "RR_top"])
      ELSE /\ U(st) /\ stk' = Goto(t, "A_nilload")
   /\ U(<<ptr, nxt, head, cur, open, mfile, mcap, nmaps, used, recs, cell, mu, fspan, clock, rv, begun, faults, closedBy>>)
 Anilload(t) == LET f == Top(t) IN
@@ -208,13 +212,13 @@ Anilload(t) == LET f == Top(t) IN
 Acas2(t) == LET f == Top(t) IN           \* locked by somebody else: update(addExtra)
   /\ f.pc = "A_cas2"
   /\ IF st[f.c] = f.s
-     THEN /\ st' = [st EXCEPT ![f.c] = AddEX(f.s, 1)] /\ stk' = Goto(t, "A_next")
+     THEN /\ st' = [st EXCEPT ![f.c] = AddEX(f.s, Amt[t])] /\ stk' = Goto(t, "A_next")
      ELSE /\ U(st) /\ stk' = Goto(t, "A_load")
   /\ U(<<ptr, nxt, head, cur, open, mfile, mcap, nmaps, used, recs, cell, mu, fspan, clock, rv, begun, faults, closedBy>>)
 Acas3(t) == LET f == Top(t) IN           \* no pointer: update(addExtra.setLocked), then releaseLock
   /\ f.pc = "A_cas3"
   /\ IF st[f.c] = f.s
-     THEN LET w == SetLocked(AddEX(f.s, 1)) IN
+     THEN LET w == SetLocked(AddEX(f.s, Amt[t])) IN
           /\ st' = [st EXCEPT ![f.c] = w]
           /\ stk' = CallFrom(t, [f EXCEPT !.pc = "A_next", !.s = 0], [Frame("RL_top", f.c) EXCEPT !.s = w])
      ELSE /\ U(st) /\ stk' = Goto(t, "A_load")
@@ -435,7 +439,7 @@ Internal(t) == LET f == Top(t) IN
             /\ U(<<ptr, open, rv, begun, closedBy>>)
        [] f.pc = "A_next" ->              \* Add returned: next call of this task, or done
             /\ IF f.left > 0
-               THEN /\ begun' = [begun EXCEPT ![f.c] = @ + 1]
+               THEN /\ begun' = [begun EXCEPT ![f.c] = @ + Amt[t]]
                     /\ stk' = SetTop(t, [f EXCEPT !.pc = "RG_nl", !.left = @ - 1, !.w = FALSE])
                ELSE /\ U(begun) /\ stk' = Goto(t, "T_end")
             /\ U(<<ptr, open, rv, closedBy>>)
